@@ -42,7 +42,11 @@ func c10DrainKeepsPair(run *mon.Run, rng *mon.Rand) {
 			pair, err := env.L1.Q.TokenPairByL1Denom(env.L1.Ctx, &ophosttypes.QueryTokenPairByL1DenomRequest{BridgeId: 1, L1Denom: "uusdc"})
 			run.Evaluations++
 			tr = append(tr, fmt.Sprintf("claim %d of %d -> %s; escrow holds %suusdc; TokenPairByL1Denom -> %v err=%v", i+1, parts, res.Class, esc, pair, err))
-			run.Check("C10.token_pair_survives_drained_escrow", res.Class == sim.OK && err == nil && pair.TokenPair.L2Denom == ref.L2Denom(1, "uusdc"), "c10.token_pair_lost", tr, "after withdrawals left %s uusdc in the escrow the pair registered by the first deposit reads %v (err %v)", esc, pair, err)
+			byL2, err2 := env.L1.Q.TokenPairByL2Denom(env.L1.Ctx, &ophosttypes.QueryTokenPairByL2DenomRequest{BridgeId: 1, L2Denom: ref.L2Denom(1, "uusdc")})
+			list, err3 := env.L1.Q.TokenPairs(env.L1.Ctx, &ophosttypes.QueryTokenPairsRequest{BridgeId: 1})
+			listed := err3 == nil && len(list.TokenPairs) == 1 && list.TokenPairs[0].L1Denom == "uusdc" && list.TokenPairs[0].L2Denom == ref.L2Denom(1, "uusdc")
+			tr = append(tr, fmt.Sprintf("TokenPairByL2Denom -> %v err=%v; TokenPairs -> %v err=%v", byL2, err2, list, err3))
+			run.Check("C10.token_pair_survives_drained_escrow", res.Class == sim.OK && err == nil && pair.TokenPair.L2Denom == ref.L2Denom(1, "uusdc") && err2 == nil && byL2.TokenPair.L1Denom == "uusdc" && listed, "c10.token_pair_lost", tr, "after withdrawals left %s uusdc in the escrow the pair registered by the first deposit reads %v (err %v)", esc, pair, err)
 		}
 		run.Distinct(fmt.Sprintf("C10/drain/%d", parts))
 	}
